@@ -94,3 +94,70 @@ def run(ctx):
     ctx.obs = [o for i, o in enumerate(ctx.obs) if i < before or o["rule"].startswith("A1.")]
     ctx.clause = ("Input-driven recursion (SQL parser, JSON literal converter) is depth-guarded on every cycle; SQL integer "
                   "arithmetic in the value evaluators is checked.")
+    ctx.clause += " Slice adaptors that panic on a zero size (windows/chunks*/rchunks*/step_by) receive a provably non-zero size."
+    nonzero_sizes(ctx)
+
+
+ZERO_PANICS = ("windows", "chunks", "chunks_exact", "chunks_mut", "chunks_exact_mut", "rchunks", "rchunks_exact", "rchunks_mut", "step_by")
+
+
+def _base(f, local, depth=8):
+    """chase copies / reborrows to the local a slice reference was taken from"""
+    while depth > 0:
+        depth -= 1
+        ds = f.defs().get(local, [])
+        if len(ds) != 1 or ds[0][0] != "stmt":
+            return local
+        rv = ds[0][3]
+        if rv[0] == "use" and rv[1][0] in ("m", "c") and not rv[1][1][1]:
+            local = rv[1][1][0]
+        elif rv[0] in ("ref", "ptr") and (not rv[2][1] or rv[2][1] == ["*"]):
+            local = rv[2][0]
+        else:
+            return local
+    return local
+
+
+def nonzero_sizes(ctx):
+    """R2 NONZERO-SIZE: `windows(0)`, `chunks(0)`, `step_by(0)` ... panic.  Each call must get a constant >= 1, or `x.len()` of a
+    slice whose emptiness is excluded by a dominating `x.is_empty()` / `x.len() == 0` test."""
+    from model import operand_place
+    from paths import const_value, source_call
+    m = ctx.m
+    n = 0
+    for f in sorted(m.fns.values(), key=lambda f: f.id):
+        for c in f.calls:
+            t = c.name.rsplit("::", 1)[-1]
+            if t not in ZERO_PANICS or len(c.args) < 2 or not ("slice" in c.name or "Iterator" in c.name or "iter::" in c.name):
+                continue
+            n += 1
+            a = c.args[1]
+            k = const_value(f, a)
+            ok, why = False, "size argument is neither a non-zero constant nor the length of a slice tested non-empty before the call"
+            if isinstance(k, int):
+                ok, why = k >= 1, "constant size %s" % k
+            else:
+                pl = operand_place(a)
+                src = source_call(f, pl[0]) if pl and not pl[1] else None
+                root = None
+                if src is not None and src.name.rsplit("::", 1)[-1] == "len" and src.args:
+                    q = operand_place(src.args[0])
+                    root = _base(f, q[0]) if q else None
+                if root is not None:
+                    for bb in f.dominators().get(c.bb, ()):
+                        tm = f.blocks[bb]["t"]
+                        if tm[0] != "switch" or tm[2] != "bool" or bb == c.bb:
+                            continue
+                        sp = operand_place(tm[1])
+                        kk, pp, neg = f.origin(sp[0]) if sp and not sp[1] else (None, None, False)
+                        if kk == "call" and pp is not None and pp.name.rsplit("::", 1)[-1] == "is_empty" and pp.args:
+                            q = operand_place(pp.args[0])
+                            if q and _base(f, q[0]) == root:
+                                false_t = [x[1] for x in tm[3] if x[0] == 0]
+                                true_t = tm[4]
+                                tgt = true_t if neg else (false_t[0] if false_t else None)   # side on which is_empty() is false
+                                if tgt is not None and f.dominates(tgt, c.bb):
+                                    ok, why = True, "length of a slice tested non-empty on the dominating branch at L%s" % f.blocks[bb].get("l")
+            ctx.ob("R2.NONZERO-SIZE", "%s:%s" % (f.id.rsplit("::", 1)[-1] if f.kind != "closure" else f.id.rsplit("::", 2)[-2] + "::closure", t), ok,
+                   why if ok else "%s(n) panics when n == 0: %s" % (t, why), c.loc())
+    ctx.floor("R2.sites", n, 5)
